@@ -414,10 +414,9 @@ def r17_4(rep: Report, models: dict | None = None) -> None:
     fn = need(find_func(cls, 'add_file'), 'Stream.add_file')
     construct = f'{rel}::Stream.add_file'
     n_del = 0
-    for blk in ast.walk(fn):
-        body = getattr(blk, 'body', None)
-        if not isinstance(body, list):
-            continue
+    blocks = [b for blk in ast.walk(fn) for fld in ('body', 'orelse', 'finalbody')
+              for b in [getattr(blk, fld, None)] if isinstance(b, list) and b and isinstance(b[0], ast.stmt)]
+    for body in blocks:
         for i, st in enumerate(body):
             if isinstance(st, ast.Expr) and isinstance(st.value, ast.Call) \
                     and isinstance(st.value.func, ast.Attribute) and st.value.func.attr == 'delete' \
